@@ -35,6 +35,9 @@ class World:
         g["t"] = nx.Tuple([g["n"], g["d"]], name="t")
         self.defs["t"] = ("tuple", ["n", "d"])
         self.mkf("u", lambda t: sum(t), ["t"])
+        self.par["lv"] = [1.0, 2.0]
+        g["lv"] = nx.Parameter([1.0, 2.0], name="lv")          # a parameter holding a mutable value (list / array)
+        self.mkf("sl", lambda lv: float(sum(lv)), ["lv"])
         self.mkf("sq", lambda x, y: x * 3 - y, ["d", "d"])          # the same node in two argument slots: a replacement must re-point both
         self.mkf("gq", self.raising, ["c"])
         g["fb"] = nx.Fallback([g["gq"], g["d"]], exception_type=Boom, name="fb")
@@ -113,10 +116,10 @@ class World:
             return "raises:" + type(e).__name__
 
 
-READ = ["n", "m", "p", "a", "t", "u", "fb", "arr", "gq", "sq"]
+READ = ["n", "m", "p", "a", "t", "u", "fb", "arr", "gq", "sq", "sl"]
 OPS = [("set", "c", 2.0), ("set", "c", -1.0), ("set", "c", 4.0), ("set", "d", 20.0), ("set", "e", 7.0), ("read", "p"), ("read", "n"), ("read", "a"), ("read", "u"), ("read", "fb"), ("read", "arr"),
        ("freeze", "n"), ("unfreeze", "n"), ("freeze", "p"), ("unfreeze", "p"), ("freeze", "t"), ("unfreeze", "t"), ("setfunc", "n"), ("setitem", "t"), ("setitem_arr", "arr"), ("replace", "d"), ("replace_child", "p"),
-       ("add_child", "m"), ("freeze_stale", "m"), ("unfreeze", "m"), ("freeze_stale", "n")]
+       ("add_child", "m"), ("freeze_stale", "m"), ("unfreeze", "m"), ("freeze_stale", "n"), ("set_inplace", "lv")]
 
 
 def apply(w, op):
@@ -124,6 +127,11 @@ def apply(w, op):
     g = w.g
     if kind == "set":
         g[k].value = op[2]; w.par[k] = op[2]
+    elif kind == "set_inplace":          # the value object is updated in place and assigned again (the usual way to update an array-valued parameter): an assignment like any other
+        buf = g[k].value
+        buf[0] += 1.0
+        g[k].value = buf
+        w.par[k] = list(buf)
     elif kind == "read":
         w.read(k)
     elif kind == "freeze":
@@ -172,7 +180,7 @@ def gen_hist(tier, seed):
             yield {"history": [list(OPS[q]) for q in seq]}
     # deeper histories behind fixed prefixes (a node frozen while stale, a frozen node with a replaced function, ...): prefix + every sequence of <= 2 operations
     PREFIXES = [[("read", "p"), ("set", "c", 2.0), ("freeze_stale", "n")], [("read", "u"), ("set", "d", 20.0), ("freeze_stale", "m"), ("read", "p")], [("read", "p"), ("freeze", "n"), ("setfunc", "n")],
-                [("read", "arr"), ("set", "c", 4.0), ("freeze_stale", "n"), ("read", "arr")]]
+                [("read", "arr"), ("set", "c", 4.0), ("freeze_stale", "n"), ("read", "arr")], [("read", "sl")]]
     for pre in PREFIXES:
         for ln in range(0, 3):
             for seq in itertools.product(range(len(OPS)), repeat=ln):
